@@ -598,6 +598,11 @@ func (g *fnGen) initGhosts(st *state) {
 			continue
 		}
 		g.ghostTypes[gv.Name] = ty
+		if id, ok := gv.Init.(*SIdent); ok && id.Name == "arbitrary" {
+			// no particular initial value (the contract sets the variable before it reads it)
+			st.ghost[gv.Name] = g.freshConst("hg!"+gv.Name, g.R.sortOf(ty))
+			continue
+		}
 		t, ety, err := g.eval(gv.Init, &evalEnv{g: g, cur: st, old: st, mode: "pre"})
 		if err != nil {
 			g.stale = append(g.stale, fmt.Sprintf("ghost var %s init: %v", gv.Name, err))
